@@ -29,12 +29,14 @@ def group(lower, upper, viol):
 
 def drive(sc):
     v, lb, ub = sc["v"], [f(b) for b in sc["lb"]], [f(b) for b in sc["ub"]]
+    eps = int(sc.get("eps", 0))
+    x = [float(v[0]) + eps / 65536.0, float(v[1])]
     transforms = {0: None, 1: make_transforms([2.0, 0.5], [1.0, -1.0], [2.0], [2.0, 4.0]),
                   2: make_transforms(var_scales=[2.0, 0.5]), 3: make_transforms(var_offsets=[1.0, -1.0]),
                   4: make_transforms(con_scales=[2.0, 4.0]), 5: make_transforms(obj_scales=[2.0])}[int(sc["tf"])]
     cfg = {
-        "variables": ({"initial_values": [float(x) for x in v]} if sc.get("vfree") else
-                      {"initial_values": [float(x) for x in v], "lower_bounds": lb, "upper_bounds": ub}),
+        "variables": ({"initial_values": x} if sc.get("vfree") else
+                      {"initial_values": x, "lower_bounds": lb, "upper_bounds": ub}),
         "linear_constraints": {"coefficients": [[2.0, 2.0], [1.0, -1.0]], "lower_bounds": lb, "upper_bounds": ub},
         "nonlinear_constraints": {"lower_bounds": lb, "upper_bounds": ub},
     }
@@ -49,10 +51,16 @@ def drive(sc):
     plan = Plan(ctx)
     step = plan.add_step("evaluator")
     tracker = plan.add_handler("tracker", what="last", constraint_tolerance=(0.0 if sc["tol"] == 0 else sc["tol"] + 0.5), sources={step})
+    if transforms is not None:
+        # the transforms object has been used before, for a configuration with other linear rows (same number of rows)
+        from ropt.config.enopt import EnOptConfig
+        other = dict(cfg, linear_constraints={"coefficients": [[8.0, -1.0], [0.5, 0.25]], "lower_bounds": [-1.0, -1.0],
+                                              "upper_bounds": [1.0, 1.0]})
+        EnOptConfig.model_validate(other, context=transforms)
     _, outcome = outcome_of(lambda: plan.run_step(step, config=cfg, transforms=transforms))
     fr = next((r for r in seen if isinstance(r, FunctionResults)), None)
     ci = None if fr is None else fr.constraint_info
-    e = {"ev": "Info", "v": v, "lb": sc["lb"], "ub": sc["ub"], "tol": sc["tol"], "tf": bool(sc["tf"]), "vfree": bool(sc.get("vfree", False)),
+    e = {"ev": "Info", "eps": eps, "v": v, "lb": sc["lb"], "ub": sc["ub"], "tol": sc["tol"], "tf": bool(sc["tf"]), "vfree": bool(sc.get("vfree", False)),
          "outcome": outcome if fr is not None or outcome != "ok" else "exc:noresult",
          "bound": group(*(None, None, None) if ci is None else (ci.bound_lower, ci.bound_upper, ci.bound_violation)),
          "linear": group(*(None, None, None) if ci is None else (ci.linear_lower, ci.linear_upper, ci.linear_violation)),
